@@ -22,6 +22,12 @@ func init() {
 		Text: "Enumerates every potential crash site of the closed classes P1 (panic), P2 (Must* with a non-constant argument), P3 (x.(T) without ok), P4c (index/slice with a constant bound on a slice or string), P5 (integer / or % by a non-constant), P6r (reflect Elem() of an existing map element used as a destination without a nil test) in all functions of internal/conf, conf/env, conf/decrypt, conf/jsonwrapper, conf/yamlwrapper, and requires each to be discharged by a checked structural argument (dominating length/emptiness/prefix guard, fixed length by construction, constant arguments evaluated by the checker, type fixed by the static configuration type graph, tabled third-party node contracts); plus: each documented constraint (positive timeouts, power-of-two queue, %path and full timestamp in recordPath, deleteAfter ≥ segment duration, regexp paths with static sources on demand, unique rpiCamera ids) guards every successful return of Validate/validate. Absence of a report is NOT a proof of crash freedom: reflect API misuse, third-party parsers (goccy/go-yaml, encoding/json, secretbox), nil dereferences and non-constant index arithmetic are outside the rule set.",
 		Note: "trusted: go/ssa, dominator tree; regexp.FindStringSubmatch returns 1+NumSubexp entries; strings.Split/SplitN return at least one element; goccy/go-yaml scalar nodes implement ast.MapKeyNode (tabled)"})
 	addMutants(
+		// the first version of the C08 nil-slice repair: the walker meets validated Paths
+		// (Path.Regexp -> regexp.Regexp, unexported slice fields) and panics in Set
+		Mutant{"C10", "walker-sets-unexported-fields", "internal/conf/conf.go",
+			"			// skip unexported fields (they belong to opaque types like regexp.Regexp)\n			if !field.CanSet() {\n				continue\n			}\n\n", "", "C10.P7r.setAllNilSlicesToEmptyRecursive"},
+		Mutant{"C10", "clone-sets-unexported-fields", "internal/conf/conf.go",
+			"			if newField.CanSet() {\n				newField.Set(deepClone(field))\n			}", "			newField.Set(deepClone(field))", "C10.P7r.deepClone"},
 		Mutant{"C10", "validpathname-empty-unchecked", "internal/conf/path.go",
 			"	if name == \"\" {\n		return fmt.Errorf(\"cannot be empty\")\n	}\n\n	if name[0] == '/' {", "	if name[0] == '/' {", "C10.P4c.IsValidPathName"},
 		Mutant{"C10", "ice-server-parts-unchecked", "internal/conf/conf.go",
@@ -105,6 +111,85 @@ func runC10(c *Ctx) {
 	c.Floor("C10.P4c", per["P4c"], 15)
 
 	c10Constraints(c, p)
+	c10WalkerSet(c, p)
+}
+
+// c10WalkerSet - class P7r: a *generic recursive walker* over reflect values (a
+// function that calls itself and iterates all fields of whatever struct it is
+// given: rv.Field(i) with a non-constant index, or `range rv.Fields()`) must not
+// call Set on such a field value without a dominating CanSet() test. The
+// configuration graph contains opaque structs (Path.Regexp *regexp.Regexp,
+// non-nil after Validate) whose fields are unexported: Set on them panics
+// ("reflect.Value.Set using value obtained using unexported field"). Found
+// the hard way: a first version of the nil-slice repair (C08) moved
+// setAllNilSlicesToEmptyRecursive into Validate, where it meets validated
+// Paths, and crashed every API configuration edit.
+func c10WalkerSet(c *Ctx, p *Prog) {
+	n := 0
+	for _, fn := range p.ModFuncs() {
+		pk := strings.TrimPrefix(funcPkgPath(fn), modPath+"/")
+		if !contains(c10Pkgs, pk) {
+			continue
+		}
+		// the walker is the top-level function; range-over-func bodies are synthetic children
+		top := fn
+		for top.Parent() != nil {
+			top = top.Parent()
+		}
+		recursive := false
+		var scan func(f *ssa.Function)
+		scan = func(f *ssa.Function) {
+			eachInstr(f, func(i ssa.Instruction) {
+				if cc := callCommon(i); cc != nil && cc.StaticCallee() == top {
+					recursive = true
+				}
+			})
+			for _, a := range f.AnonFuncs {
+				scan(a)
+			}
+		}
+		scan(top)
+		if !recursive {
+			continue
+		}
+		eachInstr(fn, func(i ssa.Instruction) {
+			cl, ok := i.(*ssa.Call)
+			if !ok || !isCallTo(cl, "(reflect.Value).Set") {
+				return
+			}
+			recv := stripConv(cl.Call.Args[0])
+			// a field value: result of Field(non-constant) or the value parameter of a range-over-Fields body
+			isField := false
+			if fc, ok := recv.(*ssa.Call); ok && isCallTo(fc, "(reflect.Value).Field") {
+				if _, isConst := stripConv(fc.Call.Args[1]).(*ssa.Const); !isConst {
+					// fields of a struct the function has just created with reflect.New are its own copy
+					// of the same type: still subject to unexported fields
+					isField = true
+				}
+			}
+			if u, ok := recv.(*ssa.UnOp); ok {
+				if a, ok := u.X.(*ssa.Alloc); ok {
+					if sv := singleStore(a); sv != nil {
+						if pv, ok := sv.(*ssa.Parameter); ok && strings.HasPrefix(fn.Synthetic, "range-over-func") && typeStr(pv.Type()) == "reflect.Value" {
+							isField = true
+						}
+					}
+				}
+			}
+			if pv, ok := recv.(*ssa.Parameter); ok && strings.HasPrefix(fn.Synthetic, "range-over-func") && typeStr(pv.Type()) == "reflect.Value" {
+				isField = true
+			}
+			if !isField {
+				return
+			}
+			n++
+			guard := "(reflect.Value).CanSet(" + desc(recv) + ")"
+			w := reachWithout(entry(fn), func(j ssa.Instruction) bool { return j == i }, []LitPat{T(guard)})
+			c.Check("C10.P7r."+top.Name(), fnName(fn)+": Set on a struct field reached by a generic recursive walk is guarded by CanSet()", w == nil, p.Pos(cl.Pos()),
+				"the configuration graph contains opaque structs with unexported fields (regexp.Regexp behind Path.Regexp); Set on such a field panics. "+w.String(p))
+		})
+	}
+	c.Floor("C10.P7r", n, 2)
 }
 
 func isRangeFuncPanic(x *ssa.Panic) bool {
